@@ -58,4 +58,14 @@ PROPS = {
         "assumptions": ["scopes are strictly nested: operations act on the innermost table only (as in compiler.go enterScope/leaveScope)",
                         "abstract machine: one optional 16-bit operand per instruction, stack effects as listed in BC.effect"],
     },
+    "C16": {
+        "modules": ["EvyV.Props.C16"],
+        "hx": ["c16"],
+        "technique": "Lean 4 proofs (Compile is total-or-error over the regenerated node inventory; compile-correctness simulation for the expression fragment) + differential evaluator-vs-VM correspondence",
+        "level_text": "Proved in Lean: every AST node kind is either a case of Compiler.Compile or reaches an error default (over the inventory regenerated from compiler.go and ast.go on every run), and for all num/bool expression trees the emitted instruction sequence leaves the evaluator's value on the VM stack or stops with the VM-only division-by-zero error. The model's instruction sequences are compared with the real compiler's output and the real VM/evaluator results on thousands of random expressions; beyond the proved fragment the property is decided by a differential run (real evaluator vs real VM, all common globals) on generated programs, which is validation, not proof.",
+        "level_note": "Statement-level simulation (declarations, if/while/for/break, arrays, maps, strings) is not proved; it is validated by the differential stream. Two recorded findings (map index assignment order, byte-indexed strings) are excluded by syntactic predicates and replayed from corpus/C16 on every run.",
+        "obligations": ["EvyV.C16.compile_total_or_error", "EvyV.C16.compile_cases_known", "EvyV.C16.eval_total_or_error",
+                        "EvyV.C16.vmExec_append", "EvyV.C16.compile_expr_correct", "EvyV.C16.no_type_error"],
+        "assumptions": ["IEEE operations are an abstract NumOps carrier in the theorem", "globals of the VM are matched to evaluator globals by symbol name (verif hook); variables that exist on one side only (top-level loop variables) are not compared"],
+    },
 }
